@@ -396,12 +396,18 @@ def pair_case(sa, sb):
 
 # ---------------------------------------------------------------- sequences
 
+def _queries(g):
+    return (sorted(map(repr, g.variables())), list(map(tuple, g.instances())), list(map(tuple, g.edges())),
+            list(map(tuple, g.attributes())), sorted(g.reentrancies().items(), key=repr), g.top)
+
+
 def seq_case(start, ops):
     fails, reqs, exp, stats = [], [], [], {}
     cur = build(start)
     S = set(cur.triples)
     gw = e_graph(cur)
     wops, states = [], []
+    _queries(cur)        # history: queries BEFORE the operations (a result cached here must not survive them)
     for code, sb in ops:
         b = build(sb)
         cb = canon(b)
@@ -426,6 +432,11 @@ def seq_case(start, ops):
             fails.append(('union' if code < 2 else 'difference',
                           f'after {len(states) + 1} operations the triple set {sorted(map(repr, set(cur.triples)))} is not the set-algebra value {sorted(map(repr, S))}'))
         states.append(e_graph(cur))
+    from penman.graph import Graph
+    fresh = Graph(list(cur.triples), top=cur._top, epidata=cur.epidata)
+    if _queries(cur) != _queries(fresh):
+        fails.append(('history', 'queries on a graph after a sequence of operations differ from the same queries on a freshly '
+                                 f'built graph with the same triples and top: {_queries(cur)} vs {_queries(fresh)}'))
     reqs.append([7, gw, wops])
     exp.append(('graphs', states))
     stats['seq:len%d' % len(ops)] = 1
